@@ -44,7 +44,7 @@ Bounds
 quick   : every size H,W in 1..5 x both parities x 6 orientations (0, 90, 180, 270, 37, 211.3 deg;
           axis-aligned ones exercise the "PC card omitted from the header" branch) with all
           pixels + 4000 seeded random WCS with H,W <= 64 (all pixels).
-thorough: sizes 1..8 exhaustive in the same way + 60000 random WCS with H,W <= 400
+thorough: sizes 1..8 exhaustive in the same way + 30000 random WCS with H,W <= 400
           (all pixels if H*W <= 4096, else corners, edges mid-points and 1500 random pixels).
 Random WCS: rotation uniform, pixel scale log-uniform 1e-5..0.5 deg/px, anisotropy 0.3..3,
 shear -0.8..0.8, either parity, CRPIX inside / outside by up to two image sizes / up to 1e5 px
@@ -475,7 +475,7 @@ def run(ctx):
     import multiprocessing as mp
     thorough = ctx.thorough
     small_max = 8 if thorough else 5
-    n_random = 60000 if thorough else 4000
+    n_random = 30000 if thorough else 4000
     maxdim = 400 if thorough else 64
     cases = small_cases(small_max, ctx.rng)
     n_small = len(cases)
